@@ -18,7 +18,7 @@ THEOREMS = ['C02_refract_unit', 'C02_refract_snell', 'C02_refract_halfspace', 'C
             'C02_ea_sag_is_conic_plus_poly', 'C02_ea_sag_dx', 'C02_ea_normal_is_gradient',
             'C02_refract_tir_nonfinite', 'C02_refract_lift', 'C02_reflect_lift',
             'C02_globalize_localize', 'C02_localize_globalize', 'C02_recorded_point_in_surface_frame',
-            'C02_conic_distance_sound_sheet', 'C02_sheet_is_sag_sheet']
+            'C02_conic_distance_sound_sheet', 'C02_sheet_is_sag_sheet', 'C02_conic_distance_nonneg']
 TRUSTED_BASE = BASE_TRUSTED + [
     'modelled, not verified: material.n(w) values are inputs of the trace model (C18 covers them)',
 ]
